@@ -32,6 +32,23 @@ def rand_cfg(rng, modes=("callable",), small_budgets=True):
     return cfg
 
 
+def vary_rare_parameters(rng, cfg, p=0.15):
+    """With probability p give the run non-default values of parameters that the bulk of the workloads leaves alone: the line-search
+    constants, and (when the run does not already set them) a user step cap. They define another valid run, nothing more."""
+    if rng.random() < p:
+        cfg["ftol_linesearch"] = float(pick_(rng, [1e-4, 1e-2, 0.1, 0.3]))
+        cfg["gtol_linesearch"] = float(pick_(rng, [0.1, 0.5, 0.99]))
+        if cfg["gtol_linesearch"] <= cfg["ftol_linesearch"]:
+            cfg["gtol_linesearch"] = 0.9
+        cfg["xtol_linesearch"] = float(pick_(rng, [1e-8, 1e-3, 0.1, 0.5]))
+        cfg["_rare"] = True
+    return cfg
+
+
+def pick_(rng, seq):
+    return seq[int(rng.integers(len(seq)))]
+
+
 def cs_capable(P):
     return "cf" in P.meta
 
